@@ -192,8 +192,10 @@ def run(pid, tier, replay=None):
         'assumptions': list(getattr(mod, 'ASSUMPTIONS', [])), 'wall_s': round(wall, 2),
         'violations': len(violations),
     }
-    os.makedirs(os.path.join(env.VERIF, 'evidence'), exist_ok=True)
-    with open(os.path.join(env.VERIF, 'evidence', pid + '.json'), 'w') as f:
+    # runs against a modified copy of the repository (seeded changes) must not overwrite the evidence of the real tree
+    evdir = os.environ.get('VERIF_EVIDENCE_DIR') or os.path.join(env.VERIF, 'evidence')
+    os.makedirs(evdir, exist_ok=True)
+    with open(os.path.join(evdir, pid + '.json'), 'w') as f:
         json.dump(ev, f, indent=1, default=str)
     extra = ''
     if agg['states']:
